@@ -275,6 +275,40 @@ def find_closures(sf, lo, hi):
     return out
 
 
+SIMPLE_TOK = re.compile(r'^([A-Za-z_][A-Za-z0-9_]*|[0-9][0-9A-Za-z_]*|\.|&|\*|::)$')
+
+
+def annotate_closures(sf, ed, spec, lo, hi, used):
+    """Closure postconditions are not inferred by Verus. Hints are keyed by the closure's own token text
+    (`//@ closure <<|x| body>>`), so that moving/adding closures does not misplace them; a closure whose body is
+    `simple == simple` / `simple != simple` gets `ensures result == (body)` automatically (rule A1)."""
+    st = sf.st
+    hints = {}
+    for key in spec.sections:
+        if isinstance(key, tuple) and key[0] == 'closuret':
+            hints[tuple(plain_texts(key[1]))] = key
+    for (po, pc, b0, b1, is_block) in find_closures(sf, lo, hi):
+        texts = tuple(t.text for t in st[po:b1 + 1])
+        key = hints.get(texts)
+        if key is not None:
+            ed.ins(st[pc].end, ' ' + spec.sections[key] + ' ')
+            used.add(key)
+        elif not is_block and st[pc + 1].text != '->':
+            body = [t.text for t in st[b0:b1 + 1]]
+            ops = [k for k, tx in enumerate(body) if tx in ('==', '!=')]
+            if len(ops) == 1 and all(SIMPLE_TOK.match(tx) for k, tx in enumerate(body) if k != ops[0]) and ops[0] not in (0, len(body) - 1):
+                ed.ins(st[pc].end, ' -> (auto_r: bool) ensures auto_r == (%s) ' % sf.src[st[b0].start:st[b1].end])
+            else:
+                continue
+        else:
+            continue
+        if not is_block:
+            ed.ins(st[b0].start, '{ ')
+            ed.ins(st[b1].end, ' }')
+    for key in hints.values():
+        used.add(key)     # an unmatched hint is not an error: the closure it was written for is gone
+
+
 def find_token_seq(sf, lo, hi, texts):
     """All start indices where the token text sequence occurs in st[lo:hi]."""
     st = sf.st
@@ -495,18 +529,7 @@ def emit_item(spec, log, vacuity=False):
                     raise ExtractError('%s: loop %d not found' % (spec.path, n))
                 ed.ins(st[loops[n - 1][1]].start, '\n' + spec.sections[('loop', n)] + '\n')
                 used.add(('loop', n))
-            closures = find_closures(sf, body_open + 1, it.last)
-            for key in spec.sections:
-                if isinstance(key, tuple) and key[0] == 'closure':
-                    n = key[1]
-                    if n < 1 or n > len(closures):
-                        raise ExtractError('%s: closure %d not found (%d present)' % (spec.path, n, len(closures)))
-                    po, pc, b0, b1, is_block = closures[n - 1]
-                    ed.ins(st[pc].end, ' ' + spec.sections[key] + ' ')
-                    if not is_block:
-                        ed.ins(st[b0].start, '{ ')
-                        ed.ins(st[b1].end, ' }')
-                    used.add(key)
+            annotate_closures(sf, ed, spec, body_open + 1, it.last, used)
         lo_rw, hi_rw = hdr_lo, it.last + 1
     else:
         lo_rw, hi_rw = hdr_lo, it.last + 1
@@ -536,6 +559,72 @@ def emit_item(spec, log, vacuity=False):
                 'rewrites': sorted(set([r[0] for r in spec.rws] + [e[3] for e in ed.ed if e[3]])),
                 'line': sf.src.count('\n', 0, start) + 1})
     return '/*@B %s %d %d %s*/' % (sf.rel, start, end, spec.path.replace('*/', '')) + text + '/*@E*/'
+
+
+def emit_slice(spec, log, vacuity=False):
+    """Rule S1: lift a closure body or a statement range of a real function verbatim into a generated fn."""
+    sf, chain = locate(spec.path)
+    it = chain[-1]
+    st, m = sf.st, sf.m
+    if it.kw != 'fn' or it.body_open is None:
+        raise ExtractError('%s: slice target is not a function with a body' % spec.path)
+    sel = spec.opts['sel']
+    if sel[0] == 'closure':
+        closures = find_closures(sf, it.body_open + 1, it.last)
+        n = sel[1]
+        if n < 1 or n > len(closures):
+            raise ExtractError('%s: closure %d not found (%d present): anchor lost' % (spec.path, n, len(closures)))
+        po, pc, b0, b1, is_block = closures[n - 1]
+        if not is_block:
+            raise ExtractError('%s: closure %d has no block body' % (spec.path, n))
+        lo, hi = b0 + 1, b1 - 1       # tokens inside the braces
+        desc = 'closure %d' % n
+    else:
+        f_texts, t_texts = plain_texts(sel[1]), plain_texts(sel[2])
+        fh = find_token_seq(sf, it.body_open + 1, it.last, f_texts)
+        th = find_token_seq(sf, it.body_open + 1, it.last, t_texts)
+        if len(fh) != 1 or len(th) != 1:
+            raise ExtractError('%s: slice anchors match %d/%d sites (anchor lost)' % (spec.path, len(fh), len(th)))
+        lo = fh[0]
+        # extend `to` to the end of its statement: next `;` at depth 0, or the closing brace of a block statement
+        k = th[0]
+        while True:
+            tx = st[k].text
+            if tx in OPEN:
+                k = m[k]
+                if st[k].text == '}' and st[k + 1].text != ';' and st[k + 1].text != '.' and st[k + 1].text != '?':
+                    break
+                k += 1
+                continue
+            if tx == ';':
+                break
+            k += 1
+        hi = k
+        desc = 'statements `%s` .. `%s`' % (sel[1], sel[2])
+    start, end = st[lo].start, st[hi].end
+    ed = Edits(sf, start, end)
+    inner_cfgs(sf, ed, lo, hi + 1)
+    sp = spec.sections.get('spec', '')
+    if vacuity and sp:
+        VAC_COUNTER[0] += 1
+        bogus = '!crate::vacuity_flag(%d) /*VACUITY*/' % VAC_COUNTER[0]
+        sp = strip_line_comments(sp).rstrip()
+        sp = (sp.rstrip(',') + ',\n ' + bogus + ',') if re.search(r'\bensures\b', sp) else (sp + '\n ensures ' + bogus + ',')
+    ed.ins(start, spec.sections.get('sig', '') + '\n' + sp + '\n{\n' + spec.sections.get('entry', '') + '\n')
+    ed.ins(end, '\n' + spec.sections.get('tail', '') + '\n}')
+    loops = find_loops(sf, lo, hi + 1)
+    want_loops = sorted(k[1] for k in spec.sections if isinstance(k, tuple) and k[0] == 'loop')
+    if len(loops) != len(want_loops):
+        raise ExtractError('%s (%s): range has %d loops, overlay has invariants for %d (shape change)' % (spec.path, desc, len(loops), len(want_loops)))
+    for n2 in want_loops:
+        ed.ins(st[loops[n2 - 1][1]].start, '\n' + spec.sections[('loop', n2)] + '\n')
+    annotate_closures(sf, ed, spec, lo, hi + 1, set())
+    apply_rws(sf, ed, spec, lo, hi + 1)
+    text = ed.render()
+    log.append({'path': spec.path + ' :: ' + desc, 'file': sf.rel, 'start': start, 'end': end, 'sigonly': False, 'slice': True,
+                'rewrites': sorted(set(['S1'] + [r[0] for r in spec.rws] + [e[3] for e in ed.ed if e[3]])),
+                'line': sf.src.count('\n', 0, start) + 1})
+    return '/*@S %s %d %d %s :: %s*/' % (sf.rel, start, end, spec.path.replace('*/', ''), desc.replace('*/', '')) + text + '/*@E*/'
 
 
 def emit_open(path, log):
@@ -699,8 +788,21 @@ def expand_fragment(frag_name, text, out_lines, regions, log, vacuity=False):
             start_region(frag_name + ':close', [], 'scaffold')
             emit('}')
             end_region()
-        elif d.startswith('item '):
-            path, opts = split_path_opts(d[5:])
+        elif d.startswith('item ') or d.startswith('slice '):
+            is_slice = d.startswith('slice ')
+            path, opts = split_path_opts(d[6:] if is_slice else d[5:])
+            if is_slice:
+                if ' :: ' not in path:
+                    raise ExtractError('%s: slice needs `:: closure N` or `:: stmts <<a>> .. <<b>>`' % frag_name)
+                path, selector = path.split(' :: ', 1)
+                ms = re.match(r'^closure\s+(\d+)$', selector.strip())
+                if ms:
+                    opts['sel'] = ('closure', int(ms.group(1)))
+                else:
+                    ms = re.match(r'^stmts\s+<<(.*?)>>\s*\.\.\s*<<(.*?)>>$', selector.strip())
+                    if not ms:
+                        raise ExtractError('%s: bad slice selector %s' % (frag_name, selector))
+                    opts['sel'] = ('stmts', ms.group(1), ms.group(2))
             spec = ItemSpec(path, opts, i)
             cur_sec = None
             buf = []
@@ -718,15 +820,21 @@ def expand_fragment(frag_name, text, out_lines, regions, log, vacuity=False):
                 i += 1
                 if md2:
                     d2 = md2.group(1).strip()
-                    if d2 == 'enditem':
+                    if d2 in ('enditem', 'endslice'):
                         flush()
                         closed = True
                         break
                     w = d2.split()
-                    if w[0] in ('pre', 'spec', 'entry', 'exit'):
+                    if w[0] in ('pre', 'spec', 'entry', 'exit', 'sig', 'tail'):
                         flush()
                         cur_sec = w[0]
-                    elif w[0] in ('loop', 'closure'):
+                    elif w[0] == 'closure':
+                        flush()
+                        mc = re.match(r'^closure\s+<<(.*)>>\s*$', d2)
+                        if not mc:
+                            raise ExtractError('%s: closure hints are keyed by text: `closure <<|x| body>>` (%s)' % (frag_name, d2))
+                        cur_sec = ('closuret', mc.group(1))
+                    elif w[0] == 'loop':
                         flush()
                         cur_sec = (w[0], int(w[1]))
                     elif w[0] == 'rw':
@@ -749,7 +857,10 @@ def expand_fragment(frag_name, text, out_lines, regions, log, vacuity=False):
             kind = 'sigonly' if 'sigonly' in opts else 'item'
             start_region(name, [p for p in opts.get('props', '').split(',') if p], kind)
             cur_region.path = path
-            emit(emit_item(spec, log, vacuity))
+            if is_slice:
+                emit(emit_slice(spec, log, vacuity))
+            else:
+                emit(emit_item(spec, log, vacuity))
             end_region()
         else:
             raise ExtractError('%s: unknown directive: %s' % (frag_name, d))
